@@ -56,7 +56,7 @@ class HashingInfeasibleExperimenter(experimenter.Experimenter):
     return False
 
   def problem_statement(self) -> vz.ProblemStatement:
-    return self._problem
+    return copy.deepcopy(self._problem)
 
 
 @attrs.define
@@ -95,4 +95,4 @@ class ParamRegionInfeasibleExperimenter(experimenter.Experimenter):
         self.exptr.evaluate([suggestion])
 
   def problem_statement(self) -> vz.ProblemStatement:
-    return self._problem
+    return copy.deepcopy(self._problem)
